@@ -129,6 +129,54 @@ pub fn check(a: &Analysis, _aux: &mut Aux, t: &mut Tally) -> Vec<Violation> {
                         }
                     }
                 }
+                // Later requests of the same connection (keep-alive): as long as every request so
+                // far was a plain HTTP/1.1 request without body or connection management, a further
+                // complete request that starts at a segment boundary is a complete HTTP request over
+                // TCP like the first one, and the segment completing it carries the response.
+                let mut pos = end;
+                let mut prev = 0usize;
+                let mut nth = 1usize;
+                while plain_11(&st.stream[prev..pos]) && pos < st.stream.len() {
+                    let rest = &st.stream[pos..];
+                    let (e2, m2) = match http::classify(rest) {
+                        HttpClass::Complete { end, method } => (end, method),
+                        _ => break,
+                    };
+                    if !st.segs.iter().any(|s| s.off == pos) {
+                        break;
+                    }
+                    let k = match st.seg_of(pos + e2 - 1) {
+                        Some(k) => k,
+                        None => break,
+                    };
+                    let sg = &st.segs[k];
+                    let idx = a.steps[sg.si].idx;
+                    let app = sg.reply_app.as_deref().unwrap_or(&[]);
+                    let bucket = if nth >= 1000 { "1000+" } else if nth >= 100 { "100+" } else if nth >= 10 { "10+" } else { "1+" };
+                    t.judged(Verdict::Reply, format!("{}|later-request|{}|nth{}", carrier, m2, bucket));
+                    if app.is_empty() {
+                        v.push(Violation {
+                            prop: "C13",
+                            rule: "unanswered".into(),
+                            key: format!("unanswered:tcp:later-request:{}", m2),
+                            step: idx,
+                            detail: format!("request number {} of the connection ({} at stream byte {}, complete at byte {}) carried no response", nth + 1, m2, pos, pos + e2),
+                        });
+                        break;
+                    }
+                    for (rule, detail) in http::check_response(app) {
+                        v.push(Violation {
+                            prop: "C13",
+                            rule: rule.into(),
+                            key: format!("response:{}", rule),
+                            step: idx,
+                            detail,
+                        });
+                    }
+                    prev = pos;
+                    pos += e2;
+                    nth += 1;
+                }
             }
             HttpClass::Incomplete | HttpClass::Malformed(_) => {
                 let why = match http::classify(&st.stream) {
@@ -155,6 +203,25 @@ pub fn check(a: &Analysis, _aux: &mut Aux, t: &mut Tally) -> Vec<Violation> {
         }
     }
     v
+}
+
+/// A request after which the connection certainly goes on with another request: HTTP/1.1, no
+/// body announced, no connection management.
+fn plain_11(req: &[u8]) -> bool {
+    if req.is_empty() {
+        return false;
+    }
+    let lower: Vec<u8> = req.iter().map(|c| c.to_ascii_lowercase()).collect();
+    let line_end = lower.iter().position(|c| *c == b'\n').unwrap_or(lower.len());
+    let mut line = &lower[..line_end];
+    if line.ends_with(b"\r") {
+        line = &line[..line.len() - 1];
+    }
+    if !line.ends_with(b" http/1.1") {
+        return false;
+    }
+    let has = |needle: &[u8]| lower.windows(needle.len()).any(|w| w == needle);
+    !(has(b"content-length") || has(b"transfer-encoding") || has(b"connection") || has(b"expect") || has(b"upgrade") || has(b"keep-alive"))
 }
 
 fn carrier_kind(c: &str) -> &'static str {
